@@ -219,6 +219,10 @@ def isNeg : Ast → Bool
     neg && m ≠ 0
   | _ => false
 
+def isNul : Ast → Bool
+  | .nul => true
+  | _ => false
+
 def hasRight : Ast → Bool
   | .node _ _ .nul => false
   | .node _ _ _ => true
@@ -309,6 +313,13 @@ def setElse : Doc → Doc → Doc
   | .cond c a _, e => .cond c a e
   | d, _ => d
 
+/-- the else-part of a PIECEWISE node whose right child is `r` (with document `rd`) -/
+def elseOf (p : Profile) (r : Ast) (rd : Doc) : Doc :=
+  match r with
+  | .nul => .atom false p.nan
+  | .node rty _ _ => if rty = .PIECE then setElse rd (.atom false p.nan) else rd
+  | _ => rd
+
 /-- `generateCode` as a document -/
 def genDoc (p : Profile) : Ast → Doc
   | .nul => .atom false ""
@@ -329,14 +340,8 @@ def genDoc (p : Profile) : Ast → Doc
     | .OR => relLogic p p.hasOr .or .or l r ld rd
     | .XOR => relLogic p p.hasXor .xor .xor l r ld rd
     | .NOT => if p.hasNot then .pre .not (wrap (isOpExpr p l) ld) else .call1 p.not_ ld
-    | .PLUS =>
-      match r with
-      | .nul => wrap (isOpExpr p l) ld
-      | _ => binop p .relplus .plus l r ld rd
-    | .MINUS =>
-      match r with
-      | .nul => minusUnary p l ld
-      | _ => binop p .minus .minus l r ld rd
+    | .PLUS => if isNul r then wrap (isOpExpr p l) ld else binop p .relplus .plus l r ld rd
+    | .MINUS => if isNul r then minusUnary p l ld else binop p .minus .minus l r ld rd
     | .TIMES => binop p .times .times l r ld rd
     | .DIVIDE => binop p .divide .divide l r ld rd
     | .POWER =>
@@ -345,27 +350,16 @@ def genDoc (p : Profile) : Ast → Doc
       else if isNumber rc 2 1 && p.square ≠ "" then .call1 p.square ld
       else .call2 p.power ld rd                       -- profiles without a power operator
     | .ROOT =>
-      match r with
-      | .nul => .call1 p.sqrt ld
-      | _ =>
-        -- `l` is the DEGREE node, whose code is the code of its child
-        if isNumber (render p ld) 2 1 then .call1 p.sqrt rd
-        else .call2 p.power rd (binop p .divide .divide (.cn "1.0") (leftOf l) (.atom false "1.0") ld)
+      if isNul r then .call1 p.sqrt ld
+      -- `l` is the DEGREE node, whose code is the code of its child
+      else if isNumber (render p ld) 2 1 then .call1 p.sqrt rd
+      else .call2 p.power rd (binop p .divide .divide (.cn "1.0") (leftOf l) (.atom false "1.0") ld)
     | .LOG =>
-      match r with
-      | .nul => .call1 p.log10 ld
-      | _ =>
-        if isNumber (render p ld) 10 1 then .call1 p.log10 rd
-        else .bin .quot (.call1 p.ln rd) (.call1 p.ln ld)
+      if isNul r then .call1 p.log10 ld
+      else if isNumber (render p ld) 10 1 then .call1 p.log10 rd
+      else .bin .quot (.call1 p.ln rd) (.call1 p.ln ld)
     | .DEGREE | .LOGBASE | .BVAR | .OTHERWISE => ld
-    | .PIECEWISE =>
-      -- `l` is a PIECE: its code is the if-part, to which the else-part is appended
-      match r with
-      | .nul => setElse ld (.atom false p.nan)
-      | .node rty _ _ =>
-        if rty = .PIECE then setElse ld (setElse rd (.atom false p.nan))
-        else setElse ld rd
-      | _ => setElse ld rd
+    | .PIECEWISE => setElse ld (elseOf p r rd)   -- `l` is a PIECE: its code is the if-part, to which the else-part is appended
     | .PIECE => pieceDoc p l r ld rd (.atom false "")
     | .TRUE => .atom false p.true_ | .FALSE => .atom false p.false_
     | .E => .atom false p.e | .PI => .atom false p.pi
